@@ -212,6 +212,23 @@ def r01_3_recursion(ctx):
         a0, a1 = c.args
         g = f.guards(c)
         gt = {('' if p else 'not ') + norm(x) for x, p in g}
+        # the only reason not to process the children of a collection is that their declared type is a built-in scalar (they were
+        # recognised as exactly that already): any other test on an element type in front of the rebuild skips children
+        if any(t in gt for t in ('is_generic_sequence(%s)' % rt, 'is_generic_mapping(%s)' % rt)):
+            elem_types = {f.alpha.text(ast.parse('generic_type_args(%s)[%d]' % (rt, i_), mode='eval').body) for i_ in (0, 1)}
+            for x_, p_ in g:
+                parts_ = x_.values if isinstance(x_, ast.BoolOp) else [x_]
+                for part in parts_:
+                    if not isinstance(part, ast.Compare) or f.alpha.text(part.left) not in elem_types:
+                        if any(f.alpha.text(n_) in elem_types for n_ in ast.walk(part) if isinstance(n_, (ast.Name, ast.Subscript))):
+                            r.fail(f.key('children-skipped:%s' % f.alpha.text(part)[:50]), f.loc(c), 'children are processed only under `%s`'
+                                   % norm(x_)[:80])
+                        continue
+                    okp = len(part.ops) == 1 and isinstance(part.ops[0], (ast.In, ast.NotIn)) and norm(part.comparators[0]) == 'scalar_type_to_tag'
+                    r.check(okp, 'children are skipped only when their declared type is in scalar_type_to_tag', f.key(
+                        'children-skipped:%s' % f.alpha.text(part)[:50]), f.loc(c), 'the children of the collection are not processed '
+                        'when `%s`: they keep the tag and value the document gave them (only a built-in scalar type, looked up in '
+                        'scalar_type_to_tag, makes processing a no-op)' % norm(x_)[:80])
         if 'is_generic_sequence(%s)' % rt in gt:
             it = _iter_var_over(c, '%s.value' % node)
             good = it is not None and isinstance(it[1], ast.Name) and norm(a0) == it[1].id \
@@ -257,7 +274,24 @@ def r01_3_recursion(ctx):
     return rt
 
 
+def _settled_wrapper(c: ast.Call) -> ast.AST:
+    """`x if T in scalar_type_to_tag else self.__process_node(x, T)`: a child whose declared type is a built-in scalar has been
+    recognised as exactly that scalar already - processing it again would recognise it again and write the tag it has.  The
+    conditional expression as a whole stands for the call (only with this very table and the call's own two arguments)."""
+    p = parent(c)
+    if isinstance(p, ast.IfExp) and p.orelse is c and len(c.args) == 2 and norm(p.body) == norm(c.args[0]) \
+            and isinstance(p.test, ast.Compare) and len(p.test.ops) == 1 and isinstance(p.test.ops[0], ast.In) \
+            and norm(p.test.left) == norm(c.args[1]) and norm(p.test.comparators[0]) == 'scalar_type_to_tag':
+        return p
+    if isinstance(p, ast.IfExp) and p.body is c and len(c.args) == 2 and norm(p.orelse) == norm(c.args[0]) \
+            and isinstance(p.test, ast.Compare) and len(p.test.ops) == 1 and isinstance(p.test.ops[0], ast.NotIn) \
+            and norm(p.test.left) == norm(c.args[1]) and norm(p.test.comparators[0]) == 'scalar_type_to_tag':
+        return p
+    return c
+
+
 def _pair_position(c: ast.Call) -> Optional[int]:
+    c = _settled_wrapper(c)
     p = parent(c)
     if isinstance(p, ast.Tuple) and len(p.elts) == 2:
         return 0 if p.elts[0] is c else 1
@@ -269,6 +303,7 @@ def _stored_back(f: Fn, c: ast.Call, construct: ast.AST, node: str) -> bool:
     if isinstance(construct, (ast.ListComp, ast.GeneratorExp)):
         # the comprehension's element is the call (or the pair containing it)
         elt = construct.elt
+        c = _settled_wrapper(c)
         if isinstance(construct, ast.GeneratorExp):
             # a bare generator stored as node.value is consumed by the first pass over it (PyYAML's constructor, a second reference
             # through an alias, a later transform): it must be materialised
